@@ -343,12 +343,18 @@ theorem writeJSON_of_err (s : W) (enc : Bytes) (dnp : List Bytes) (fullp : Bytes
   · rename_i m s' heq
     rw [heq] at hbe; cases hbe
 
-theorem writePreparedImage_of_err (s : W) (t : Int) (img : Bytes) (he : s.writeErr.isSome) :
-    (writePreparedImage s t img).1.isSome ∧ (writePreparedImage s t img).2.core = s.core := by
-  obtain ⟨e, hee⟩ := Option.isSome_iff_exists.mp he
+theorem writePreparedImage_of_err (s : W) (t : Int) (img : Bytes) (dnp : List Bytes) (fullp : Bytes)
+    (he : s.writeErr.isSome) :
+    (writePreparedImage s t img dnp fullp).1.isSome ∧ (writePreparedImage s t img dnp fullp).2.core = s.core := by
   unfold writePreparedImage
+  dsimp only
+  have hc : (if isData t then closePrev s dnp fullp else s).core = s.core := by
+    split
+    · exact closePrev_of_err s dnp fullp he
+    · rfl
+  obtain ⟨e, hee⟩ := Option.isSome_iff_exists.mp (isSome_of_core hc he)
   rw [connWrite_of_err _ _ _ _ _ e hee]
-  exact ⟨rfl, rfl⟩
+  exact ⟨rfl, hc⟩
 
 theorem hReadFrom_of_err (s : W) (h : Nat) (r : Src) (he : s.writeErr.isSome) :
     (hReadFrom s h r).2.core = s.core := by
@@ -374,7 +380,7 @@ theorem applyOp_of_err (s : W) (op : Op) (he : s.writeErr.isSome) : (applyOp s o
   | writeMessage t data dnp fullp dn full => exact (writeMessage_of_err s t data dnp fullp dn full he).2
   | writeJSON enc dnp fullp dn full => exact (writeJSON_of_err s enc dnp fullp dn full he).2
   | writeControl t data d => exact (writeControl_of_err s t data d he).2
-  | writePrepared t img => exact (writePreparedImage_of_err s t img he).2
+  | writePrepared t img dnp fullp => exact (writePreparedImage_of_err s t img dnp fullp he).2
   | setWriteDeadline d => rfl
   | enableWriteCompression b => rfl
   | setCompressionLevel l =>
